@@ -341,7 +341,7 @@ PROPS["C12"] = _serve("C12", {
 ONEWAY_TRUST = COMMON_TRUST + [
     "ghost one-way world (units/lib/oneway_world.rs, ASSUMED): a kill keeps what was written (process kill, not power loss); copy / create / streaming are NON-atomic and allowed only onto *.copia-tmp; rename is atomic and demands a WHOLE source (filled by a successful copy or by a remote cat that reported success); every effect is logged in order - kill points are the prefixes of the log",
     "dir_sync::transfer_file_from_remote BY CONTRACT (tokio process + async pipes): writes only its local_path argument, Ok only if ssh/cat reported success; validated on the real binary by the crash oracle (pull: every kill point; a remote end that fails mid-stream)",
-    "meta::set_local_mtime by contract (open without create/truncate + set_modified): changes no byte",
+    "meta::set_local_mtime is under contract in unit oneway (time arithmetic behind R5 shims; std::fs::File::set_modified by contract: changes no byte)",
     "R4: async fn => fn, `.await` erased (tokio::fs::copy / rename are the std calls run on a blocking thread); R11: Box<dyn Error> => VErr; R3: format! diagnostics => vfmt()",
     "std::path algebra (ASSUMED): a path is its byte string; OsString::push appends",
 ]
@@ -370,22 +370,24 @@ PROPS["C09"] = dict(
 # ---- C13: hub-sync, the client side of one run ----
 PROPS["C13"] = dict(
     level="proof",
-    units=[dict(template="units/hub.rs", slice=["*"])],
+    units=[dict(template="units/hub.rs", slice=["*"]), dict(template="units/hubclient.rs", slice=["*"])],
     twins=[dict(name="hub_sync_runs", repo_fn="src/bin/copia/hub.rs hub_sync + HubClient", quick=1, thorough=1, needs_cli=True,
                 contract="`copia hub-sync` on the real binary: a local tree lands on a quiet hub (identical bytes, other hub paths untouched, the file the hub already had is skipped, no conflict copy), an immediate second run sends nothing and changes nothing; with client A delayed (strace) between its List and its Put while client B commits the same path, B's content is not overwritten, A's file is kept as a conflict copy and A exits non-zero")],
     fallback_searches=["hub_sync"],
     clauses={
         "hub_sync": "the run's request log (ghost): first the List; afterwards ONLY Puts (then Bye), each for a local file whose listed hash differs from its own, carrying exactly that listed hash as `expected` (None if unlisted), the local fingerprint as content hash and the file root/rel as content; a file whose listed hash equals the local one is not sent; never a Delete; Ok ==> every local file the listing did not already match was Put and the hub answered committed:true; any conflict ==> Err",
+        "HubClient::{send, recv, put} (wire level, unit hubclient)": "put writes exactly one Put frame - path == rel, the caller's expected and hash, len == the length of the file - followed by exactly the file's bytes (so the hub's stream stays in step), and returns the `committed` flag of the reply it read; send appends one frame; recv writes nothing",
         "consequences (stated, not mechanised)": "with the hub's compare-and-swap (C03: committed only if the live hash equals `expected`) nothing another client committed after this run's List is overwritten, and a non-committed file is kept as a conflict copy; with truthful commits (C03/C10) an immediate second run lists the local hashes and sends nothing",
     },
     trusted=COMMON_TRUST + [
-        "HubClient::{connect, list, put, bye} BY CONTRACT (a child process and buffered pipes; std::process is outside the verifier's reach): each sends exactly the request it is named after and `put` streams the named file; an I/O error may cut one request anywhere. Validated by the run twin on the real binary",
+        "the abstract request log used by hub_sync's contract: HubClient::{connect, list, put, bye} are BY CONTRACT at that level (each appends the request it is named after). What `put` really writes is proved separately at the level of wire bytes in unit hubclient; that the log entry Put{..} STANDS FOR those bytes is the link left to the reader (and to the run twin on the real binary). connect (process spawning, handshake) and bye are not verified",
+        "unit hubclient: write_frame / read_frame by contract (their bodies are proved against the same clauses in unit serve); local file access by contract (file_len, copy_file_into: the file does not change during the run)",
         "meta::discover_local_fingerprints by contract (a function of the local tree); R5 shims to_lossy_string (rel.to_string_lossy().into_owned()) and listed_hash (hub.get(&rel_s).map(|f| f.blake3)); R9/R10 on the loop; R11 Box<dyn Error> => VErr",
         "BTreeMap<PathBuf,_> key model as in unit plan",
     ],
     assumptions=["fewer than 2^64 local files", "the local tree does not change during the run"],
     not_decided=["sequences of runs by several clients: one run's contract plus the hub-side properties (C03, C10) give the statement by induction on runs - a paper argument; the stale-listing interleaving is exercised once, forced, by the twin",
-                 "HubClient's own methods (process spawning, framing of Put + content) are assumed, not verified; split_target (host:root parsing) is not under contract",
+                 "HubClient::connect / bye and split_target (host:root parsing) are not under contract",
                  "the `host:root` target over SSH is not exercised (the twin uses a local hub path)"],
 )
 
@@ -394,7 +396,7 @@ PROPS["C13"] = dict(
 _C14_ONLY = [r"^(?!.*(mtime|clamp0|needs\()).*$"]
 PROPS["C14"] = dict(
     level="proof",
-    units=[dict(template="units/oneway.rs", slice=["deliver_local", "deliver_pull", "lemma_delivered_is_skipped"],
+    units=[dict(template="units/oneway.rs", slice=["deliver_local", "deliver_pull", "set_local_mtime", "lemma_delivered_is_skipped"],
                 ignore_clauses={"deliver_local": [r"delivery_log", r"delivered_or_untouched", r"same_except", r"is_staging", r"\.whole"], "deliver_pull": [r"delivery_log", r"delivered_or_untouched", r"same_except", r"is_staging", r"\.whole"]}),
            dict(template="units/plan.rs", slice=["needs_transfer", "build_plan"], ignore_clauses={"build_plan": [r"with_delete", r"plan\.delete", r"sorted\("]})],
     kani=[dict(harness="c19_needs_transfer_is_quick_check", repo_fn="src/bin/copia/plan.rs needs_transfer", desc="needs_transfer(src, dst) == (dst absent or size differs or whole-second mtime differs), all inputs")],
@@ -406,11 +408,12 @@ PROPS["C14"] = dict(
     fallback_searches=["second_run"],
     clauses={
         "needs_transfer / build_plan (unit plan, Kani)": "a file is planned for transfer exactly when it is not excluded and is absent from the destination or differs in size or whole-second mtime (the property's second sentence; shared with C19)",
+        "set_local_mtime": "on success the file's whole-second mtime is max(secs, 0) - in particular 0 for the epoch itself - and no byte of any file changes; it succeeds when the file exists and no I/O fault occurs",
         "deliver_local / deliver_pull": "Ok and no I/O fault ==> the delivered file's whole-second mtime is max(planned mtime, 0): set_local_mtime is called on dst AFTER the rename with the planned value",
         "lemma_delivered_is_skipped": "a destination file with the source's bytes and the planned (non-negative) mtime is NOT selected by the quick check: the next run skips it",
     },
     trusted=ONEWAY_TRUST + [
-        "meta::set_local_mtime / mtime_secs BY CONTRACT: on success the whole-second mtime read back is max(secs, 0) (SystemTime/Duration arithmetic and the file-system's timestamp granularity are outside the verifier's reach)",
+        "meta::set_local_mtime is PROVED to stamp epoch + max(secs, 0) seconds (R5 shims for UNIX_EPOCH + Duration::from_secs, i64::max, u64::try_from, and File::options().write(true).open(p)?.set_modified(t)); meta::mtime_secs (what the next scan reads back: whole seconds, the file system's timestamp granularity) is by contract",
         "discover_local_with_meta / discover_remote_with_meta by contract (size and whole-second mtime of each file)",
     ],
     assumptions=["no I/O fault while setting the mtime (its result is ignored by the code: `let _ =`)", "mtimes at or after the epoch"],
